@@ -12,11 +12,11 @@ def run(ctx):
     big = ctx.tier == "thorough"
     corpus = os.path.join(vlib.ROOT, "corpus", "c03.tsv")
     # the thorough tier runs the harness in several processes (one Atomix test cluster each: memory stays bounded)
-    chunks = 8 if big else 1
+    chunks = 10 if big else 1
     res = None
     for i in range(chunks):
-        args = ["-seed", int(ctx.seed) + 1000 * i, "-hist", 300 if big else 200, "-find", 20 if big else 10, "-commit", 800 if big else 400,
-                "-pure", 8000 if big else 4000, "-workers", 12, "-corpus", corpus]
+        args = ["-seed", int(ctx.seed) + 1000 * i, "-hist", 200, "-find", 10, "-commit", 400,
+                "-pure", 6000 if big else 4000, "-workers", 12, "-corpus", corpus]
         r = vlib.run_pipeline(ctx, exe, args, mcheck)
         if res is None:
             res = r
